@@ -1,5 +1,6 @@
 """C20 — ignore-file options remove exactly the ignored entries (static necessary conditions)."""
 import itertools
+import re
 
 from hirq import *  # noqa: F401,F403
 from core import Abort
@@ -180,6 +181,14 @@ def r3(ctx):
                     and c["args"] and peel(c["args"][0])["k"] == "Lit"]
             tm = [t for t, _ in fmt_templates(hir)]
             anchored = any(l.endswith("$") or l.endswith("$)") for l in lits + tm)
+            # an anchor that stops the match right after the pattern also stops it covering what lies *below* a matched
+            # directory (`build` must keep omitting build/out.bin when the search starts inside build): the end must admit `/..`
+            bare = [l for l in lits + tm if l.endswith("$") and not re.search(r"(\(/\|\$\)|\(\$\|/\)|\(/\.\*\)\?\$|\(\?:/\.\*\)\?\$|\(/\|\$\))$", l)]
+            ctx.obligation(not bare)
+            if bare:
+                ctx.violation("regex-hygiene/%s/end-anchor-cuts-descendants" % name, ctx.where(fn),
+                              "the assembled pattern ends with a bare `$` (%r): a pattern naming a directory no longer covers the entries below it, so a search "
+                              "rooted inside an ignored directory lists everything" % bare[0])
             ctx.obligation(anchored)
             if not anchored:
                 ctx.violation("regex-hygiene/%s/end-anchor" % name, ctx.where(fn),
